@@ -4,16 +4,21 @@ count_exceptions / track_inprogress / time factories of prometheus_client.metric
 import builtins
 import inspect
 import itertools
+import json
 
 from .sx import Sym, d_int, d_str, some
 
-RULE = ('three case kinds.  body: program trees over {return obj, raise <any of 28 classes incl. BaseException '
+RULE = ('three case kinds.  body: program trees over {return obj, raise <any of 32 classes incl. BaseException '
         'subclasses, PEP 654 exception groups (ExceptionGroup / BaseExceptionGroup and user subclasses of both, holding '
         'nested members that mix classes matching and not matching the configuration; a group is one more class of the '
         'hierarchy - ExceptionGroup has the two bases BaseExceptionGroup and Exception - and counts only when the group '
         'object itself is of a configured type), exceptions carrying __cause__ / __context__ chains, a class whose '
         'instances answer __class__ with a base class, a class made by a metaclass>, probe gauge, seq, try/except, wrapper as decorator (on generated functions of every parameter shape, '
-        'methods, lambdas) or as with-block, true recursion to depth k, re-used Timer object} x the 3 wrappers on plain and '
+        'methods, lambdas) or as with-block, true recursion to depth k, re-used Timer object, ONE wrapper object (a kept context manager, a decorated function) '
+        'used several times in the program - in a row with what escapes caught in between, nested in itself - with a different '
+        'outcome each time; among the classes raised / configured are distinct classes with one and the same __module__.__qualname__ '
+        '(made by a factory function with different bases) and a class called builtins.ValueError that is not it: '
+        'exhaustive over ordered pairs of escaping classes x the configurations telling them apart} x the 3 wrappers on plain and '
         'labelled Counter/Gauge/Summary/Histogram; count_exceptions configured with everything `except <spec>` accepts - no '
         'argument, a class (incl. BaseException-only ones), the empty tuple, 1-tuples, flat tuples, tuples with repeated and with '
         'overlapping (class + its subclass) members, tuples nested to depth 3 with empty members (written flat in the reference '
@@ -26,8 +31,8 @@ RULE = ('three case kinds.  body: program trees over {return obj, raise <any of 
         'non-ASCII, percent and quote characters, 5000 chars, in the source or assigned; __name__, __qualname__, __doc__ compared '
         'exactly, __defaults__/__kwdefaults__/__annotations__ by object identity) x call shapes valid and invalid '
         '(missing, too many, unexpected keyword, duplicate, positional-only by keyword, keyword named func): exhaustive '
-        'over small shapes x small calls, then random.  hier: all 28x28 issubclass pairs.  match: isinstance(exc, spec) of the model '
-        'against a real except clause, all 28 classes x a pool of specs, then random specs.  '
+        'over small shapes x small calls, then random.  hier: all 32x32 issubclass pairs.  match: isinstance(exc, spec) of the model '
+        'against a real except clause, all 32 classes x a pool of specs, then random specs.  '
         'non-trivial = at least one wrapper executed with a raising body or a non-increasing clock (body); '
         'a call with at least one keyword or default involved (bind); distinct by the whole case')
 TRUSTED = ['CPython: the with-statement protocol, exec/compile of the generated def, function attribute copying '
@@ -44,7 +49,9 @@ CLS_NAMES = ['BaseException', 'Exception', 'KeyboardInterrupt', 'SystemExit', 'G
              'ZeroDivisionError', 'LookupError', 'KeyError', 'IndexError', 'ValueError', 'UnicodeError', 'TypeError',
              'OSError', 'FileNotFoundError', 'RuntimeError', 'RecursionError', 'StopIteration',
              'UserError', 'UserKeyError', 'UserBase', 'UserExit',
-             'BaseExceptionGroup', 'ExceptionGroup', 'UserGroup', 'UserBaseGroup', 'UserProxy', 'UserMeta']
+             'BaseExceptionGroup', 'ExceptionGroup', 'UserGroup', 'UserBaseGroup', 'UserProxy', 'UserMeta',
+             'TwinKeyError', 'TwinValueError', 'TwinExit', 'ShadowValueError']
+TWINS = ('TwinKeyError', 'TwinValueError', 'TwinExit')      # distinct classes, one __module__.__qualname__
 GROUPS = ('BaseExceptionGroup', 'ExceptionGroup', 'UserGroup', 'UserBaseGroup')      # PEP 654, Python >= 3.11
 EXC_GROUPS = ('ExceptionGroup', 'UserGroup')                                          # may hold Exception instances only
 
@@ -90,9 +97,24 @@ class UserMeta(ArithmeticError, metaclass=_Made):
     pass
 
 
+def make_twin(base):
+    """every call makes a distinct class; all of them are called c16...make_twin.<locals>.Twin (dynamically created
+    exception classes: __module__, __qualname__ and __name__ do not identify a class, the class object does)"""
+    class Twin(base):
+        pass
+    return Twin
+
+
+TwinKeyError, TwinValueError, TwinExit = make_twin(KeyError), make_twin(ValueError), make_twin(SystemExit)
+# a class that is called like a builtin without being it (and without deriving from it)
+ShadowValueError = type('ValueError', (OSError,), {'__module__': 'builtins', '__qualname__': 'ValueError'})
+
+
 CLS = {n: getattr(builtins, n) for n in CLS_NAMES if hasattr(builtins, n)}
 CLS.update(UserError=UserError, UserKeyError=UserKeyError, UserBase=UserBase, UserExit=UserExit, UserGroup=UserGroup,
-           UserBaseGroup=UserBaseGroup, UserProxy=UserProxy, UserMeta=UserMeta)
+           UserBaseGroup=UserBaseGroup, UserProxy=UserProxy, UserMeta=UserMeta, TwinKeyError=TwinKeyError,
+           TwinValueError=TwinValueError, TwinExit=TwinExit, ShadowValueError=ShadowValueError)
+assert len({(c.__module__, c.__qualname__, c.__name__) for c in (TwinKeyError, TwinValueError, TwinExit)}) == 1
 CLS_OF = {v: k for k, v in CLS.items()}
 
 
@@ -436,6 +458,7 @@ class BodyRun:
         self.timer_windows = []     # (first reading index, last reading index + 1) per timer context, in exit order
         self.count_ctx = []         # (counter mid, configured class names, escaped class object or None)
         self.held = {}
+        self.shared = {}            # wrapper objects / decorated functions the application keeps and uses again
         self.notes = []
 
     # -- values --
@@ -530,6 +553,25 @@ class BodyRun:
             return lambda: inst.wrapped_m(*pos, **kw)
         return lambda: wf(*pos, **kw)
 
+    def shared_cm(self, key, w):
+        """ONE ExceptionCounter / InprogressTracker object per key, entered by every `with` of that key"""
+        if key not in self.shared:
+            self.shared[key] = self.wrapper(w)
+        return self.shared[key]
+
+    def shared_fn(self, key, w, shape_idx, bodyfn):
+        """ONE decorated function per key, called by every node of that key: what it does this time (bodyfn) is
+        handed over in a slot the function empties as soon as its body starts"""
+        if key not in self.shared:
+            slot = []
+            self.shared[key] = (self.decorated(w, lambda: slot.pop()(), shape_idx), slot)
+        call, slot = self.shared[key]
+
+        def thunk():
+            slot.append(bodyfn)
+            return call()
+        return thunk
+
     def run(self, b):
         t = b[0]
         if t == 'ret':
@@ -549,12 +591,16 @@ class BodyRun:
                 return self.run(b[3])
         if t == 'call':
             w, inner, mode = b[1], b[2], b[3]
+            key = share_key(b)
             if mode == 'with':
                 def thunk():
-                    with self.wrapper(w):
+                    with (self.wrapper(w) if key is None else self.shared_cm(key, w)):
                         return self.inner(w, inner)
                 return self.around(w, thunk)
-            call = self.decorated(w, lambda: self.inner(w, inner), b[4] if len(b) > 4 else 0)
+            if key is None:
+                call = self.decorated(w, lambda: self.inner(w, inner), b[4] if len(b) > 4 else 0)
+            else:
+                call = self.shared_fn(key, w, b[4], lambda: self.inner(w, inner))
             return self.around(w, call)
         if t == 'rec':
             k, w, inner = b[1], b[2], b[3]
@@ -629,6 +675,17 @@ class BodyRun:
                    counted=[[c, cfg, (CLS_OF.get(e, e.__name__) if e else None), bool(caught), desc, tag]
                             for c, cfg, e, caught, desc, tag in self.count_ctx])
         return dict(cmp=cmp_, aux=aux)
+
+
+def share_key(b):
+    """A call node ['call', w, body, mode, shape, h] with a sixth element h goes through the wrapper object (mode
+    'with': the context manager; mode 'dec': the decorated function) that every other node with the same
+    (h, w, mode, shape) goes through; without it (None) a new wrapper object is made for the node.  A kept Timer used as
+    with-block is the 'held' node (a Timer has state; ExceptionCounter / InprogressTracker / decorated functions
+    have none the model knows of - the model is given a plain call)."""
+    if len(b) > 5 and b[5] is not None and not (b[1][0] == 'time' and b[3] == 'with'):
+        return json.dumps([b[5], b[1], b[3], b[4] if b[3] == 'dec' else 0])
+    return None
 
 
 # -- reference semantics of the program with the wrappers removed (harness side, independent of the model) --
@@ -1189,6 +1246,21 @@ def classify(case, obs):
                     out.append('escape-vs-config:unrelated')
                 if x[2] in CLS and not issubclass(CLS[x[2]], Exception):
                     out.append('escape:base-exception-only:' + ('counted' if x[3] else 'not-counted'))
+        uses = {}
+        for n in walk(case['body']):
+            if n[0] == 'call' and share_key(n) is not None:
+                uses.setdefault(share_key(n), []).append(n)
+        for key, ns in uses.items():
+            kind = ns[0][1][0]
+            out.append('shared-%s-object:uses:%d' % (kind, min(len(ns), 4)))
+            esc = {n[2][1] for n in ns if n[2][0] == 'raise'}
+            if len(esc) > 1:
+                out.append('shared-%s-object:different-classes-escape' % kind)
+            if len(esc & set(TWINS)) > 1 or {'ValueError', 'ShadowValueError'} <= esc:
+                out.append('shared-%s-object:same-named-classes-escape' % kind)
+            if kind == 'count' and ns[0][1][2] != 'default' and len(
+                    {issubclass(CLS[c], except_obj(ns[0][1][2])) for c in esc}) > 1:
+                out.append('shared-count-object:verdicts-differ')
         if any(n[0] in ('rec',) for n in walk(case['body'])):
             out.append('recursion')
         if any(n[0] == 'call' and n[3] == 'with' for n in walk(case['body'])):
@@ -1399,6 +1471,7 @@ class Gen:
         self.rng = rng
         self.next_obj = 1
         self.next_exc = 1
+        self.sharetab = {}       # share id -> (wrapper, mode, shape) of the wrapper object kept under that id
 
     def leaf(self):
         rng = self.rng
@@ -1421,6 +1494,13 @@ class Gen:
         if r < 0.05:
             return self.leaf()
         if r < 0.55:
+            if rng.random() < 0.3:      # through a wrapper object that other nodes of the tree go through as well
+                h = rng.randrange(3)
+                if h not in self.sharetab:
+                    self.sharetab[h] = (rand_wrapper(rng, interference), 'with' if rng.random() < 0.4 else 'dec',
+                                        rng.randrange(len(BODY_SHAPES)))
+                w, mode, shape = self.sharetab[h]
+                return ['call', w, self.tree(depth - 1, interference), mode, shape if mode == 'dec' else 0, h]
             w = rand_wrapper(rng, interference)
             mode = 'with' if rng.random() < 0.4 else 'dec'
             node = ['call', w, self.tree(depth - 1, interference), mode]
@@ -1437,6 +1517,89 @@ class Gen:
             return ['seq', first, self.tree(depth - 1, interference)]
         cs = [rng.choice(CLS_NAMES)] if rng.random() < 0.6 else rng.sample(CLS_NAMES, 2)
         return ['try', self.tree(depth - 1, interference), cs, self.tree(depth - 2, interference)]
+
+
+def in_sequence(w, mode, shape, h, leaves, catch_last=True):
+    """leaf_1; ...; leaf_n, each run through the SAME wrapper object (share id h), what escapes from a step caught
+    by the application before the next step"""
+    steps = []
+    for i, leaf in enumerate(leaves):
+        c = ['call', w, leaf, mode, shape if mode == 'dec' else 0, h]
+        if i < len(leaves) - 1 or catch_last:
+            c = ['try', c, ['BaseException'], ['ret', 900 + i]]
+        steps.append(c)
+    b = steps[-1]
+    for c in reversed(steps[:-1]):
+        b = ['seq', c, b]
+    return b
+
+
+SAME_NAME = list(TWINS) + ['ShadowValueError', 'ValueError']      # classes that share their names with another one
+
+
+def related(cname):
+    return [n for n in CLS_NAMES if issubclass(CLS[n], CLS[cname]) or issubclass(CLS[cname], CLS[n])]
+
+
+def rand_sequence(rng):
+    """a random wrapper object used 2..6 times in a row; for count_exceptions the escaping classes are drawn so
+    that steps with different verdicts, same-named classes and classes related to the configuration are frequent"""
+    w = rand_wrapper(rng)
+    mode = 'with' if rng.random() < 0.4 else 'dec'
+    if w[0] == 'count' and rng.random() < 0.5:
+        w = ['count', w[1], rng.choice([rng.choice(SAME_NAME), [rng.choice(SAME_NAME), rng.choice(CLS_NAMES)],
+                                         rng.choice(related(rng.choice(SAME_NAME)))])]
+    names = spec_names(w[2]) if w[0] == 'count' and w[2] != 'default' else []
+    pool = list(SAME_NAME) + [r for n in names[:3] for r in related(n)]
+    leaves = []
+    for i in range(rng.randrange(2, 7)):
+        q = rng.random()
+        if q < 0.15:
+            leaves.append(['ret', i + 1])
+        elif q < 0.65:
+            leaves.append(['raise', rng.choice(pool), i + 1])
+        else:
+            leaves.append(rand_raise(rng, i + 1))
+    if rng.random() < 0.3:
+        j = rng.randrange(len(leaves))
+        leaves[j] = ['seq', ['probe', rng.choice(GAUGES)], leaves[j]]
+    b = in_sequence(w, mode, rng.randrange(len(BODY_SHAPES)), rng.randrange(3), leaves, rng.random() < 0.5)
+    if rng.random() < 0.25:       # the whole sequence inside another use of the same object / of another wrapper
+        if rng.random() < 0.5:
+            b = ['call', w] + [b] + walk_first_call(b)[3:]
+        else:
+            b = ['call', rand_wrapper(rng), b, 'dec', 1]
+    return b
+
+
+def walk_first_call(b):
+    return next(n for n in walk(b) if n[0] == 'call')
+
+
+def sequence_cases():
+    """one count_exceptions object, two escapes: every ordered pair of classes (A, B) x every configuration among
+    {A, B} that tells them apart (the verdict on B must not depend on A having come first), the pairs of classes
+    sharing their names first; then the same step three times over for every wrapper kind"""
+    pairs = [(a, b) for a in SAME_NAME for b in SAME_NAME if a != b]
+    pairs += [(a, b) for a in CLS_NAMES for b in CLS_NAMES if a != b and (a, b) not in pairs]
+    i = 0
+    for a, b in pairs:
+        for sp in (a, b):
+            if issubclass(CLS[a], CLS[sp]) == issubclass(CLS[b], CLS[sp]):
+                continue
+            i += 1
+            mode = ('dec', 'with')[i % 2]
+            cfg = sp if i % 3 else [[sp], []]
+            yield dict(kind='body', clock=[1, 2],
+                       body=in_sequence(['count', i % 2, cfg], mode, i % len(BODY_SHAPES), 0,
+                                        [['raise', a, 1], ['raise', b, 2]], i % 5 != 0))
+    for w in all_wrappers():
+        for mode in ('dec', 'with'):
+            for leaves in ([['raise', 'TwinKeyError', 1], ['raise', 'TwinValueError', 2], ['raise', 'TwinKeyError', 3]],
+                           [['ret', 1], ['raise', 'KeyboardInterrupt', 2], ['seq', ['probe', 2], ['raise', 'OSError', 3]]]):
+                yield dict(kind='body', clock=[10, 7, 7, 30, 2, 90, 95], body=in_sequence(w, mode, 3, 1, leaves))
+                yield dict(kind='body', clock=[10, 7, 7, 30, 2, 90, 95, 99, 3],
+                           body=['call', w, in_sequence(w, mode, 3, 1, leaves, False), mode, 3 if mode == 'dec' else 0, 1])
 
 
 def count_timers(b):
@@ -1546,11 +1709,13 @@ def body_cases(ctx):
     for t in sorted(HELD):
         yield dict(kind='body', clock=[10, 20, 40, 80, 160, 320],
                    body=['held', t, HELD[t], ['seq', ['held', t, HELD[t], ['ret', 1]], ['raise', 'IndexError', 1]]])
-    # random trees
+    # one wrapper object used several times in a row with different outcomes
+    yield from sequence_cases()
+    # random trees, and random sequences through one wrapper object
     for i in range(ctx.n(7000, 150000)):
         g = Gen(rng)
         depth = rng.choice([1, 2, 2, 3, 3, 4, 5])
-        b = g.tree(depth, interference=(i % 10 == 0))
+        b = rand_sequence(rng) if i % 6 == 5 else g.tree(depth, interference=(i % 10 == 0))
         yield dict(kind='body', body=b, clock=rand_clock(rng, 2 * count_timers(b) + rng.randrange(0, 3)))
 
 
@@ -1823,7 +1988,9 @@ def simplify(b):
             for sp in spec_shrinks(b[1][2]):
                 yield [b[0], ['count', b[1][1], sp]] + b[2:]
         if b[3] == 'dec' and len(b) > 4 and b[4] != 0:
-            yield b[:4] + [0]
+            yield b[:4] + [0] + b[5:]
+        if len(b) > 5:
+            yield b[:5]
     elif t == 'rec':
         if b[1] > 0:
             yield ['rec', b[1] - 1, b[2], b[3]]
